@@ -95,10 +95,15 @@ static int freedH[256], nfreedH;
  * p_uthread_create* call, the PUThreadBase block of p_uthread_current), and whether it has been freed again */
 static __thread int watch_big, first_big_freed;
 static __thread void *first_big;
+/* blocks the calling thread allocated while `watch_all` is set and that are still allocated (a TLS call whose key creation
+ * fails must leave none) */
+static __thread int watch_all, nop_blk;
+static __thread void *op_blk[16];
 
 static ppointer t_malloc (psize n) {
 	void *p = malloc (n ? n : 1);
 	if (watch_big && first_big == NULL && n >= 32) first_big = p;
+	if (watch_all && nop_blk < 16) op_blk[nop_blk++] = p;
 	pthread_mutex_lock (&amx);
 	if (nblk >= MAXB) DIE ("block table full");
 	blks[nblk].p = p; blks[nblk].tag = 0; blks[nblk].id = -1; nblk++;
@@ -108,6 +113,7 @@ static ppointer t_malloc (psize n) {
 static void t_free (ppointer p) {
 	if (p == NULL) return;
 	if (watch_big && p == first_big && !first_big_freed) first_big_freed = 1;
+	if (watch_all) for (int i = 0; i < nop_blk; i++) if (op_blk[i] == p) { op_blk[i] = op_blk[--nop_blk]; break; }
 	pthread_mutex_lock (&amx);
 	int i;
 	for (i = nblk - 1; i >= 0; i--) if (blks[i].p == p) break;
@@ -387,8 +393,11 @@ static void exec_op (Slot *s) {
 		break; }
 	case O_SET: case O_REPLACE: case O_GET:
 		fail_kc = o->jfail;                             /* `… fail`: the lazy pthread_key_create of this call fails */
+		watch_all = o->jfail; nop_blk = 0;
 		tls_call (o->kind, kptr[o->k], o->v, o->res);
+		watch_all = 0;
 		if (fail_kc) DIE ("scripted pthread_key_create failure was not consumed");
+		if (o->jfail && nop_blk > 0) snprintf (o->res, 48, "leak:%d", nop_blk);   /* the failed call kept a block */
 		break;
 	case O_RACE:
 		while (!race_go) ;
